@@ -19,6 +19,8 @@ let parse_run x = match x with
   | A s -> ([s], [], [])
   | _ -> failwith "c19 run"
 
+let redterm_fuel = nat_of_int 256
+
 let () = Reg.register "c19.recover" (fun inp out ->
   match lst inp with
   | [gtm; tables; evt; fixws; errsym; after; names; samples] ->
@@ -30,6 +32,23 @@ let () = Reg.register "c19.recover" (fun inp out ->
     let shift_ok = (match opt with Some o -> Recover.shift_ok_opt o | None -> Recover.shift_ok_default enc) in
     let deep = (match opt with Some _ -> (fun _ _ -> false) | None -> (fun s a -> Run.lalr_deep enc s a)) in
     let verdict = ref "ok" in
+    (* the tables pass the reduction-termination validators (RedTerm.check_redterm / check_range, premises of
+       C19_recovering_parse_terminates_on_validated_tables): per grammar, for all inputs *)
+    let (_, _, _, _, _, nstates) = t in
+    let nterms = gtm.Cfg.g_terms in
+    let nsyms = Z.add gtm.Cfg.g_terms gtm.Cfg.g_nonterms in
+    if not (RedTerm.check_range m nstates nterms nsyms) then verdict := "bad:tables-mention-states-or-symbols-outside-their-range"
+    else if not (RedTerm.check_redterm m nstates nterms nsyms redterm_fuel) then verdict := "bad:reduction-sequences-not-bounded(check_redterm)"
+    else if not (RedTerm.check_eoi m nstates (Stdlib.List.nth finals 0)) then verdict := "bad:end-of-input-shifted-outside-the-end-state"
+    else if not (let e = get_z errsym in Z.compare e Z0 <> Lt && Z.compare e nsyms = Lt) then verdict := "bad:error-symbol-outside-the-tables"
+    (* gotoState(-1, errSymbol) = -1: evaluated for the default encoding; with optimized tables the generated
+       gotoState indexes tmAction[-1] (a panic the model does not reproduce), so the premise is not claimed there *)
+    else if opt = None && Z.compare (m.m_goto (z_of_int (-1)) (get_z errsym)) (z_of_int (-1)) <> Eq
+    then verdict := "bad:goto-on-error-from-state-minus-one";
+    (match Sys.getenv_opt "VERIF_C19_DEBUG" with
+     | Some _ -> Printf.eprintf "c19 redterm: nstates=%d T=%d NS=%d longest=%d verdict=%s\n%!" (int_of_z nstates) (int_of_z nterms) (int_of_z nsyms)
+                   (int_of_nat (RedTerm.redterm_longest m nstates nterms nsyms redterm_fuel)) !verdict
+     | None -> ());
     let model = Stdlib.List.map2 (fun s o ->
       match lst s, lst o with
       | [len; _valid; toks], [runs; plain] ->
@@ -85,7 +104,8 @@ let () = Reg.register "c19.shipped" (fun inp out ->
     let l = get_int len in
     let rec mono = function (a, _) :: (((b, _) :: _) as tl) -> a <= b && mono tl | _ -> true in
     let verdict =
-      if atom st <> "ok" then "bad:recovering-parser-crashed-or-hung"
+      if atom st = "unreported" then "bad:parse-returned-a-syntax-error-the-handler-never-saw"
+      else if atom st <> "ok" then "bad:recovering-parser-crashed-or-hung"
       else if Stdlib.List.exists (fun (a, b) -> a < 0 || b > l || a > b) errs then "bad:error-range-outside-the-input"
       else if not (mono errs) then "bad:error-offsets-decrease"
       else if get_int valid = 1 && errs <> [] then "bad:error-reported-on-a-sentence"
